@@ -269,7 +269,7 @@ class C14Quotient(QuotientWorld):
 SPEC = PropSpec(
     prop="C14",
     scenarios=[(5, C14Struct), (3, C14Cuckoo), (2, C14Quotient)],
-    runs={"quick": 16000, "thorough": 600000},
+    runs={"quick": 40000, "thorough": 1000000},
     rule=("three scenario families, the counter oracle evaluated after EVERY step.  (1) the ten Bloom / expanding / "
           "rotating / count-min classes under add / remove / push / pop / clear-free histories with export+load over every "
           "channel, on-disk close+reopen from another cwd, union / intersection results (elements_added must equal the "
